@@ -217,6 +217,28 @@ PROPS["C15"] = dict(
     assumptions=["the file system keeps nanosecond timestamps (tmpfs)"],
 )
 
+PROPS["C16"] = dict(
+    level_text="The format language (escapes, %%, directives with '-' flag and width) and the value of every directive are specified in TLA+ on top of the "
+               "reference walk: an entry's attributes come from the tree node the follow mode selects, %H/%P/%f/%h from the path and the starting point "
+               "as spelled. TLC enumerates every format string up to LF characters over literals (one multi-byte), '%', backslash, '-', a width digit and "
+               "directive/escape letters x {-P,-L} x three spellings of the starting point on a tree with links to a file, to a directory and nowhere, "
+               "checks laws (literal text verbatim, %p = path, %H '/' %P = %p, %h '/' %f = %p, padding exact and never truncating, %y = what the follow mode "
+               "resolves) and prints the prescribed output bytes; the real find is run on the materialised tree. Random formats on random trees with "
+               "attributes read back by lstat are validated by TLC byte for byte.",
+    level_note="Trusted: TLC; the harness's tree construction and its lstat/readlink read-back. Out of domain (skipped, listed in spec/Printf.tla): flags "
+               "other than '-', unknown directives/escapes, octal escapes not of three digits or above 0177, time directives, %Y/%l of links the follow "
+               "mode resolves and %Y of dangling links, %f/%h of a starting point spelled with a trailing slash, width on non-ASCII values.",
+    mc=[dict(module="mc/MC_Printf.tla", cfg=dict(quick="mc/MC_Printf_quick.cfg", thorough="mc/MC_Printf_thorough.cfg"), workers=8)],
+    record=dict(quick=500, thorough=12000),
+    selftest=dict(quick=40, thorough=200),
+    trace=dict(module="trace/T_Printf.tla", cfg="trace/T_Printf.cfg"),
+    trace_chunk=400,
+    rule="MC: all formats up to LF over 18 symbols x {P,L} x {d, ./d, d/} on a 7-node tree; trace: random trees (as C02, with sizes, modes incl. "
+         "setuid/setgid/sticky, owners, link texts) x random formats of up to 10 components over all 15 directives, widths, escapes, multi-byte literals.",
+    exhaustive_note="bounded-exhaustive over formats up to LF",
+    assumptions=[],
+)
+
 _WALK_NOTE = ("Trusted: TLC; the harness's materialisation of tree values (mkdir/symlink) and the in-process call of find_main with captured "
               "output. Unreadable directories cannot be produced as root in-process and are exercised by C11's fixture only. Link targets are "
               "non-links or dangling (no link-to-link chains).")
